@@ -40,6 +40,8 @@ def gen_case(run, i):
     return dict(i=i, family=family, grid=grid, src=src.to_dict(), ref=ref.to_dict(), nb=nsb,
                 halvings=sorted(rng.sample([0, 1, 2, 3, 4], 3)), threads=rng.choice([1, 2, 4]),
                 upsampling=rng.choice(['cubic_spline', 'bilinear', 'nearest']), dup_descr=dup,
+                # how invalid pixels are encoded in the files (stratified: every combination within 36 cases)
+                src_nodata=['nan', -9999.0, 'mask'][(i // 4) % 3], ref_nodata=[-9999.0, 'nan', 'mask'][(i // 12 + i // 4) % 3],
                 descr=rng.choice(['none', 'ref', 'src']))
 
 
@@ -117,7 +119,8 @@ def run(run: common.Run):
         if case['dup_descr']:
             descr_r = ['SR'] * nb
         pair = fusion.write_pair(tmp, 'c11', src, ref, s, r, sv, rv, src_kw=dict(descriptions=descr_s),
-                                 ref_kw=dict(descriptions=descr_r))
+                                 ref_kw=dict(descriptions=descr_r), src_nodata=case['src_nodata'], ref_nodata=case['ref_nodata'])
+        run.hist[f"nodata encoding src={case['src_nodata']} ref={case['ref_nodata']}"] += 1
         model_stats = None
         if modelled:
             model_stats = []
@@ -166,9 +169,17 @@ def run(run: common.Run):
                 mean = st['Mean']
                 expn = int(sum(m['n'] for m in model_stats) / nb)
                 expr2 = sum(float(m['r2']) for m in model_stats if m['r2'] is not None) / nb
-                if mean['n'] != expn or abs(mean['r2'] - expr2) > 1e-4:
+                if mean['n'] != expn:
+                    run.fail(sub, f'"Mean" row N={mean["n"]} is not the average over the {nb} compared bands (N={expn})',
+                             signature=dict(kind='mean-row'))
+                elif abs(mean['r2'] - expr2) > 1e-4:
+                    # the per-band rows are hidden by the name collision, so the Mean row is compared with the model's band
+                    # definitions; with a forced finer grid and a non-nearest kernel those depend on the partition (D7)
+                    local = case['upsampling'] == 'nearest' or case['grid'] != 'forced-finer'
                     run.fail(sub, f'"Mean" row (N={mean["n"]}, r2={mean["r2"]:.5f}) is not the average over the {nb} compared '
-                             f'bands (N={expn}, r2={expr2:.5f})', signature=dict(kind='mean-row'))
+                             f'bands (N={expn}, r2={expr2:.5f})',
+                             signature=dict(kind='mean-row') if local else dict(
+                                 kind='stat-def', forced_finer=True, multi_block=nblk > nb, local_resampler=False))
             # definitions (model) per band
             if model_stats and len(rows) == nb:
                 for b, (row, m) in enumerate(zip(rows, model_stats)):
